@@ -688,6 +688,120 @@ impl<C: Suite> Model for M04TL<C> {
     }
 }
 
+// ---- identity keys far into long aggregate lists --------------------------------------------------------------
+//
+// The subset lattice above covers every position of lists up to 8 entries. An implementation that evaluates a long list
+// in windows can lose the guard for entries behind the first window, so the identity key is also placed at and around
+// the window sizes 2^k one would choose, in lists one entry longer.
+
+#[derive(Clone, Debug, PartialEq, Eq, Hash, Serialize, Deserialize)]
+pub struct LongSt {
+    s: Scheme,
+    n: usize,
+    /// position of the identity key (None: the honest list, which must verify)
+    pos: Option<usize>,
+}
+
+pub struct M04Long<C: Suite> {
+    tier: Tier,
+    sigs: std::sync::Mutex<std::collections::HashMap<Scheme, Vec<SgP<C>>>>,
+    _c: PhantomData<C>,
+}
+
+impl<C: Suite> Model for M04Long<C> {
+    type State = Option<LongSt>;
+    type Action = LongSt;
+    fn name(&self) -> String {
+        format!("c04-identity-key-far-into-a-long-list/{}", C::G)
+    }
+    fn init(&self) -> Vec<Option<LongSt>> {
+        vec![None]
+    }
+    fn actions(&self, st: &Option<LongSt>) -> Vec<LongSt> {
+        if st.is_some() {
+            return vec![];
+        }
+        let thorough = self.tier.thorough();
+        let ns: &[usize] = if thorough { &[65, 129, 257, 513, 1025, 2049, 2100, 4097, 8193] } else { &[257, 2049, 4097] };
+        let mut v = vec![];
+        for s in SCHEMES {
+            for &n in ns {
+                v.push(LongSt { s, n, pos: None });
+                let mut ps = vec![0, n - 1];
+                let mut k = 32;
+                while k < n {
+                    if thorough {
+                        ps.extend([k - 1, k, k + 1, n / 2, n - 2]);
+                    } else if k * 8 >= n {
+                        // quick: the three largest powers of two below n, and the entry behind the largest
+                        ps.push(k);
+                        if k * 2 >= n {
+                            ps.push(k + 1);
+                        }
+                    }
+                    k *= 2;
+                }
+                ps.sort();
+                ps.dedup();
+                for p in ps.into_iter().filter(|p| *p < n) {
+                    v.push(LongSt { s, n, pos: Some(p) });
+                }
+            }
+        }
+        v
+    }
+    fn step(&self, _st: &Option<LongSt>, a: &LongSt) -> Option<Option<LongSt>> {
+        Some(Some(a.clone()))
+    }
+    fn describe(&self, st: &Option<LongSt>) -> String {
+        format!("{} aggregate verify over a long list, identity key at {:?}", C::G, st)
+    }
+    fn required_outcomes(&self) -> Vec<String> {
+        vec!["long-list:honest-accepted".into(), "long-list:identity-key-rejected".into()]
+    }
+    fn check(&self, st: &Option<LongSt>, o: &mut Obs) {
+        let Some(st) = st else { return };
+        o.nontrivial = true;
+        let sks: Vec<SecretKey<C>> = (0..4).map(|i| SecretKey::<C>::from_hash(format!("c04 long list signer {}", i))).collect();
+        let msg = |i: usize| format!("c04 long list message {}", i).into_bytes();
+        let ls = lib_scheme(st.s);
+        // signatures of the honest list, made once per scheme (entry i: signer i mod 4, message i)
+        let sigs = {
+            let mut cache = self.sigs.lock().unwrap();
+            let e = cache.entry(st.s).or_insert_with(Vec::new);
+            while e.len() < st.n {
+                let i = e.len();
+                e.push(*sks[i % 4].sign(ls, &msg(i)).unwrap().as_raw_value());
+            }
+            e[..st.n].to_vec()
+        };
+        let mut acc = SgP::<C>::identity();
+        let mut list: Vec<(PublicKey<C>, Vec<u8>)> = Vec::with_capacity(st.n);
+        for i in 0..st.n {
+            if Some(i) == st.pos {
+                // the identity key's entry contributes the unit to the product whatever its message is, so the sum of
+                // the other signatures satisfies the bare equation: only the guard can reject
+                list.push((PublicKey(PkP::<C>::identity()), msg(i)));
+            } else {
+                acc += sigs[i];
+                list.push((sks[i % 4].public_key(), msg(i)));
+            }
+        }
+        let r = guard(|| mk_agg_sig::<C>(st.s, acc).verify(&list).is_ok());
+        o.calls(1);
+        match st.pos {
+            None => {
+                o.outcome("long-list:honest-accepted");
+                o.expect(&format!("C04:long-list:{}:{}:honest:n{}", C::G, st.s.name(), st.n), matches!(r, Ok(true)), "accepted", &format!("{:?}", r));
+            }
+            Some(p) => {
+                o.outcome(if matches!(r, Ok(false)) { "long-list:identity-key-rejected" } else { "long-list:identity-key-accepted" });
+                o.expect(&format!("C04:long-list:{}:{}:identity-key:n{}", C::G, st.s.name(), st.n), matches!(r, Ok(false)), "rejected", &format!("position {} of {}: {:?}", p, st.n, r));
+            }
+        }
+    }
+}
+
 pub fn models(tier: Tier, seed: u64) -> Vec<Box<dyn DynModel>> {
     vec![
         bounded(M04::<Bls12381G1Impl>::new(tier, seed), 6),
@@ -695,6 +809,7 @@ pub fn models(tier: Tier, seed: u64) -> Vec<Box<dyn DynModel>> {
     ]
     .into_iter()
     .chain([bounded(M04TL::<Bls12381G1Impl> { seed, _c: PhantomData }, 1), bounded(M04TL::<Bls12381G2Impl> { seed, _c: PhantomData }, 1)])
+    .chain([bounded(M04Long::<Bls12381G1Impl> { tier, sigs: Default::default(), _c: PhantomData }, 1), bounded(M04Long::<Bls12381G2Impl> { tier, sigs: Default::default(), _c: PhantomData }, 1)])
     .chain(crate::props::tsurf::models("C04", tier, seed))
     .collect()
 }
